@@ -1,9 +1,11 @@
 package hx
 
 import (
+	"bytes"
 	"context"
 	"errors"
 	"fmt"
+	"os"
 	"strconv"
 	"sync"
 	"time"
@@ -69,17 +71,18 @@ type crashSignal struct{}
 
 type faultBucket struct {
 	simpleblob.Interface
-	mu         sync.Mutex
-	failStores int
-	failKinds  int
-	stores     int
-	lists      int
-	loadGate   map[string]chan struct{} // name -> closed when the load may proceed
-	stored     []string
-	failList   bool
-	failDelete map[string]bool
-	deleted    []string
-	failLoads  map[string]int // name -> number of Load calls that fail first (transient download errors)
+	mu           sync.Mutex
+	failStores   int
+	failKinds    int
+	stores       int
+	lists        int
+	loadGate     map[string]chan struct{} // name -> closed when the load may proceed
+	stored       []string
+	failList     bool
+	failListErrs []error // errors returned by the next List calls, one each
+	failDelete   map[string]bool
+	deleted      []string
+	failLoads    map[string]int // name -> number of Load calls that fail first (transient download errors)
 }
 
 func (b *faultBucket) Delete(ctx context.Context, name string) error {
@@ -116,7 +119,14 @@ func (b *faultBucket) Store(ctx context.Context, name string, data []byte) error
 func (b *faultBucket) List(ctx context.Context, prefix string) (simpleblob.BlobList, error) {
 	b.mu.Lock()
 	fl := b.failList
+	var once error
+	if len(b.failListErrs) > 0 {
+		once, b.failListErrs = b.failListErrs[0], b.failListErrs[1:]
+	}
 	b.mu.Unlock()
+	if once != nil {
+		return nil, once
+	}
 	if fl {
 		return nil, errInjected
 	}
@@ -141,7 +151,12 @@ func (b *faultBucket) Load(ctx context.Context, name string) ([]byte, error) {
 	b.mu.Lock()
 	if b.failLoads[name] > 0 {
 		b.failLoads[name]--
+		b.failKinds++
+		k := b.failKinds
 		b.mu.Unlock()
+		if k%2 == 0 { // a transient "not found" of an eventually consistent backend
+			return nil, fmt.Errorf("injected storage failure: %w", os.ErrNotExist)
+		}
 		return nil, errInjected
 	}
 	b.mu.Unlock()
@@ -214,24 +229,27 @@ type loopRunner struct {
 	recv    *receiver.Receiver
 	ownName string
 	// application-side history (the harness is the application)
-	appLast       map[int]int
-	appCommits    []appCommit
-	sinceStore    bool
-	storedInRun   bool
-	ownMerged     bool
-	ownExisted    bool
-	infoAtCheck   int64
-	injected      map[string]bool
-	prevNewest    map[string]Ver
-	oldSnapName   string
-	forceDue      bool   // the forced-snapshot interval has passed since the last own snapshot
-	otherSnapName string // newest snapshot of the other instance ("remote2") lying in the bucket from the start
-	realFuture    uint64
-	heldRelease   chan struct{}
-	heldDone      chan error
-	heldFinish    func()
-	injectedTimes []time.Time // timestamps of the injected remote snapshots, in injection order (= merge order)
-	mergedBase    int         // injected snapshots consumed or dropped before the current run
+	appLast        map[int]int
+	appCommits     []appCommit
+	sinceStore     bool
+	storedInRun    bool
+	ownMerged      bool
+	ownExisted     bool
+	infoAtCheck    int64
+	injected       map[string]bool
+	prevNewest     map[string]Ver
+	oldSnapName    string
+	heldK          int    // key of the held application commit
+	heldStampFloor uint64 // wall-clock time just before the held commit was released (0: none pending)
+	heldStampKey   int
+	forceDue       bool   // the forced-snapshot interval has passed since the last own snapshot
+	otherSnapName  string // newest snapshot of the other instance ("remote2") lying in the bucket from the start
+	realFuture     uint64
+	heldRelease    chan struct{}
+	heldDone       chan error
+	heldFinish     func()
+	injectedTimes  []time.Time // timestamps of the injected remote snapshots, in injection order (= merge order)
+	mergedBase     int         // injected snapshots consumed or dropped before the current run
 }
 
 // noNetChange: in shadow mode LS finds changes by comparing the application's value with the live value of its
@@ -611,6 +629,7 @@ func runLoopBehaviour(R *Result, in loopInput, beh []loopStep, bi int) error {
 					return fmt.Errorf("held application transaction did not start")
 				}
 				lr.heldFinish = finishApp
+				lr.heldK = a.K
 				R.Count("held_app_commits", 1)
 				continue // the state changes when the commit is released during the next step
 			}
@@ -770,14 +789,33 @@ func runLoopBehaviour(R *Result, in loopInput, beh []loopStep, bi int) error {
 				}
 				if lr.heldRelease != nil && (a.To == "load.txnDone" || a.To == "send.txnDone" || a.To == "dead") {
 					time.Sleep(3 * time.Millisecond) // the loop is waiting for the write lock now
+					tRelease := uint64(time.Now().UnixNano())
 					close(lr.heldRelease)
 					lr.heldRelease = nil
 					if e := <-lr.heldDone; e != nil {
 						return fmt.Errorf("held app commit: %w", e)
 					}
 					lr.heldFinish()
+					lr.heldStampFloor, lr.heldStampKey = tRelease, lr.heldK
 				}
 				ev, err = lr.waitPark()
+				if err == nil && !in.Native && lr.heldStampFloor != 0 && len(lr.appCommits) > 0 && (ev.Point == "load.txnDone" || ev.Point == "send.txnDone") {
+					// C11: a change is stamped with the time of its detection - never with a time before the
+					// application committed it (the LS transaction started to wait for the lock before that commit)
+					raw, _, _ := w.readRaw(1, syncer.SyncDBIShadowPrefix+w.DBIName)
+					for _, e := range raw {
+						if !bytes.Equal(e.Key, w.key(lr.heldStampKey)) {
+							continue
+						}
+						last := lr.appCommits[len(lr.appCommits)-1]
+						isCapture := !last.NoVer && ((last.V == -1 && len(e.Val) >= 24 && e.Val[17]&1 != 0) || (last.V != -1 && len(e.Val) >= 24 && e.Val[17]&1 == 0 && bytes.Equal(e.Val[24:], w.Conc.Val[last.V])))
+						if h, perr := ParseRaw(e.Val); perr == nil && isCapture && h.TxnID == uint64(toInt64(ev.Args[0])) && h.TS > 1e15 && h.TS < lr.heldStampFloor {
+							bad("conformance", "stamp-before-commit", si, nil, "the application's change of key %d, committed while the LS transaction waited for the write lock, is stamped %.2f ms BEFORE it was committed",
+								lr.heldStampKey, float64(lr.heldStampFloor-h.TS)/1e6)
+						}
+					}
+					lr.heldStampFloor = 0
+				}
 			}
 			if err != nil {
 				bad("conformance", "stuck", si, nil, "%v", err)
